@@ -10,10 +10,12 @@ CONFIG = {
                   "payloads (no theorem claimed).",
     "level_note": "Trusted: Lean kernel; SA.Model.Accept tied by the regenerated facts (go keyword at the handler call sites) and by e2e "
                   "runs of real client/server pairs: `hol` (k idle connections, then a new one must echo; idle ones must still work), "
-                  "`xtalk` (k concurrent connections with distinct payloads, one slow reader), corpus replay of the early-frame race.",
+                  "`xtalk` (k concurrent connections with distinct payloads, one slow reader), `isolate` (connection A ends cleanly / by reset / "
+                  "stops reading under a flood while B and later connections must keep working), corpus replay of the early-frame race.",
     "technique": "Lean 4 proof (reachability argument over a scheduler model, all schedules) + regenerated facts + e2e correspondence",
     "components": [{"name": "hol", "timeout": {"quick": 300, "thorough": 900}},
                    {"name": "xtalk", "timeout": {"quick": 300, "thorough": 1800}},
+                   {"name": "isolate", "timeout": {"quick": 300, "thorough": 900}},
                    {"name": "bytes", "corpus_only": True, "timeout": {"quick": 300, "thorough": 300}}],
     "rule": "hol: k in {1,3} (thorough: up to 8) idle logical connections on tcp/ws/stdio/udp (thorough: all carriers) then a fresh "
             "connection; xtalk: 2-3 (thorough: up to 8) concurrent connections, payload 1..200000 bytes, 4 write partitions, one slow "
